@@ -4,6 +4,26 @@ import json, os, subprocess
 root = os.path.dirname(os.path.dirname(os.path.abspath(__file__)))
 
 CHECKS = {
+ "C01": dict(
+  category="exploration", design_ref="DESIGN.md §4 C01",
+  text="Reference-model monitor at the API boundary: expression trees (every pair and triple of the 11 binary operators in every shape, prefix/postfix decorations, ternaries in every position, chains of member access/index/call/prefix/postfix, assignments, the operator x operand-kind error matrix, 64-bit boundaries, random typed trees) are printed in four layouts (minimal/full/redundant parentheses; spaced, tight, newline-broken), rendered by the real EvaluateString and compared with an independent typed evaluator of the tree. Exploration: exhaustive over the stated operator space, sampled over deeper trees.",
+  note="Trusts the harness' evaluator and its minimal-parentheses printer (both written from the statement's precedence table). Operations the statement leaves undefined are executed but not judged; error texts are not compared.",
+  technique="differential runtime monitor against an independent typed expression evaluator, 4 source layouts per tree"),
+ "C02": dict(
+  category="exploration", design_ref="DESIGN.md §4 C02",
+  text="Runtime monitor with in-evaluation probes: every condition of every generated @if/@elseif/@else, ternary, @breakIf and @continueIf is wrapped in a registered tracer function, so each render of the real evaluator yields an event log of which conditions were evaluated, in which order, with which value. Output and log are compared with an independent interpreter. Exhaustive over shapes (0..3 @elseif, with/without @else) x truthiness vectors x the whole truthiness table at each position x failing conditions at each position x nestings to depth 3; random nestings beyond.",
+  note="Trusts the harness' interpreter and the tracer registration (public RegisterXFunc API). nil/object conditions cannot carry a tracer and are judged by output only.",
+  technique="tracer-probe event log + reference interpreter over exhaustive branch shapes"),
+ "C03": dict(
+  category="exploration", design_ref="DESIGN.md §4 C03",
+  text="Runtime monitor with in-evaluation probes: loop.index/iter/first/last and the loop variable are traced per pass by registered tracer functions and compared, together with the output, with an independent interpreter. Exhaustive over array lengths 0..6 x element kinds, every position of every control directive in a 4-item body (bare and under @if/@elseif/@else to depth 2), 2/3-level nests of @each/@for with a directive at each level, @else bodies acting on the outer loop, @for start/bound/comparison/step combinations, absent clauses, non-array headers; random loop programs beyond.",
+  note="Trusts the harness' interpreter (one scope per loop, control flow as worded in the statement). Loops needing more than 14 passes are not generated.",
+  technique="tracer-probe event log + reference interpreter over exhaustive loop/control-flow shapes"),
+ "C04": dict(
+  category="exploration", design_ref="DESIGN.md §4 C04",
+  text="Reference-model monitor: all sequences up to length 4 (quick) / 5 (thorough) over {assign a|b a value of 3 types, read a|b, open @if/@else/@elseif/@each/@for block, close} under all 16 pre-bindings of a and b in the data map, with a distinct value per assignment so that each read identifies the assignment it saw; all 49 type pairs in 8 placements; the reserved name loop in every binding position; random scope-heavy programs. The real render is compared with an interpreter that keeps an explicit scope chain.",
+  note="Trusts the harness' scope-chain interpreter. A loop is one block for all its passes. Error texts are not compared.",
+  technique="differential runtime monitor against a scope-chain interpreter, exhaustive short programs"),
  "C19": dict(
   category="exploration", design_ref="DESIGN.md §4 C19",
   text="Runtime monitor over the real lexer: every token of every generated input is compared with an independent (line, column)<->offset table (order, no overlap, exact start/end, covered bytes = token text, gaps, EOF position, Position.Contains for every cursor, lexer counters via hook). Exhaustive over all sequences of up to 4 (quick) / 5 (thorough) atoms of the text alphabet and 3 / 4 atoms of the lexeme alphabet, random beyond. Exploration is the right level: the property quantifies over all byte strings and a monitor can only speak for the inputs it lexed.",
